@@ -70,7 +70,23 @@ func (fr *Frame) call(st *State, cc *ssa.CallCommon, instr ssa.Instruction, pos 
 		}
 		return fr.invoke(st, cc, recv, args, pos, instr)
 	}
-	for _, a := range cc.Args {
+	skip := 0
+	if fn := cc.StaticCallee(); fn != nil {
+		switch fn.Name() {
+		case "__requires", "__ensures", "__invariant", "__canary", "__assert":
+			skip = 2 // clause name and tags are read from the constants, not evaluated
+		case "__case", "__logN":
+			skip = 1
+		}
+		if o := fn.Origin(); o != nil && o.Name() == "__logAt" {
+			skip = 1
+		}
+	}
+	for i, a := range cc.Args {
+		if i < skip {
+			args = append(args, Val{})
+			continue
+		}
 		args = append(args, fr.val(st, a))
 	}
 	if fn := cc.StaticCallee(); fn != nil {
@@ -171,6 +187,11 @@ func (fr *Frame) inline(st *State, fn *ssa.Function, args, free []Val, pos token
 	}
 	sub := ex.newFrame(fn, args, free, fr)
 	sub.callPos = pos
+	callerPC := st.pc
+	if ex.ghost > 0 {
+		// ghost code is pure: the value of a call does not depend on how it was reached
+		st.pc = TTrue
+	}
 	exit, vals := sub.run(st)
 	if exit == nil {
 		// callee never returns normally
@@ -179,6 +200,9 @@ func (fr *Frame) inline(st *State, fn *ssa.Function, args, free []Val, pos token
 	}
 	// continue in the exit state
 	st.pc = exit.pc
+	if ex.ghost > 0 {
+		st.pc = callerPC
+	}
 	st.heap = exit.heap
 	st.defers = exit.defers
 	switch len(vals) {
